@@ -46,12 +46,13 @@ TInit == /\ tid \in 1..Len(Traces)
 TCall == /\ Ev.op = "call"
          /\ LET ls == Ev.lines
                 im == ImplMap(ls, TRUE)
+                rm == StmtFold(ls)           \* = RefMap(ls): GpgStatus!StmtFoldIsRefMap
             IN /\ IF Ev.known
                   THEN /\ GDecided(ls) /\ \E k \in 1..Len(ls) : Argless(ls[k])
-                       /\ im # RefMap(ls)
+                       /\ im # rm
                        /\ SameMap(Ev.map, im) /\ Ev.valid = ImplValid(im)
                   ELSE IF GDecided(ls)
-                       THEN SameMap(Ev.map, RefMap(ls)) /\ Ev.valid = RefValid(ls)
+                       THEN SameMap(Ev.map, rm) /\ Ev.valid = (GoodSig \in DOMAIN rm \/ ValidSig \in DOMAIN rm)
                        ELSE (~SameMap(Ev.map, im) \/ Ev.valid # ImplValid(im)) => PrintT(<<"DRIFT", tid, l>>)
                /\ seen' = [x \in DOMAIN seen \cup {Ev.id} |->
                              IF x = Ev.id THEN [map |-> ObsEntries(Ev.map), valid |-> Ev.valid, dirty |-> FALSE]
